@@ -78,6 +78,8 @@ structure Entry where
   groupShared : Bool := false
   /-- `q`: a `= StaticSampler {..}` initialiser on a declarator of a static-storage declaration -/
   staticSs : Bool := false
+  /-- `E`: the first storage keyword is written twice -/
+  dupKw : Bool := false
   deriving Repr
 
 def parseFlag (e : Entry) (f : String) : Option Entry :=
@@ -94,6 +96,7 @@ def parseFlag (e : Entry) (f : String) : Option Entry :=
   else if f == "m" then some { e with dim2 := true }
   else if f == "k" then some { e with wrongClass := true }
   else if f == "e" then some { e with externKw := true }
+  else if f == "E" then some { e with dupKw := true }
   else if f == "G" then some { e with groupShared := true }
   else if f == "q" then some { e with staticSs := true }
   else if f == "Y" then some { e with extras := e.extras ++ [none] }
@@ -101,7 +104,7 @@ def parseFlag (e : Entry) (f : String) : Option Entry :=
   else if f.startsWith "w" then (f.drop 1).toString.toNat?.map fun n => { e with preGroup := some n }
   else if f.startsWith "A" then
     match (f.drop 1).toString.toNat? with
-    | some n => if n < 10 then some { e with badAttr := some n } else none
+    | some n => if n < 12 then some { e with badAttr := some n } else none
     | none => none
   else if f.startsWith "R" then
     match (f.drop 1).toString.splitOn "_" with
@@ -166,7 +169,9 @@ def badAttr : Nat → Attr
   | 6 => .unknown "nope"
   | 7 => .unknown "other"
   | 8 => .unknown "single"
-  | _ => .notConstant
+  | 9 => .notConstant ""
+  | 10 => .notConstant "WaveGetLaneCount"
+  | _ => .notConstant "4294967296"
 
 def declAttrs (h : Entry) : List Attr :=
   (match h.badAttr with | some n => [badAttr n] | none => []) ++
@@ -206,8 +211,11 @@ def Entry.declarator (e : Entry) (joined : Bool) : Declarator Shape :=
 
 /-- the storage-class keywords in front of the type of the declaration whose first declarator is `h` -/
 def Entry.mods (h : Entry) : List StorageMod :=
-  (if h.isStatic then [if h.groupShared then StorageMod.groupShared else StorageMod.static] else []) ++
-  (if h.externKw then [StorageMod.extern] else [])
+  let ms := (if h.isStatic then [if h.groupShared then StorageMod.groupShared else StorageMod.static] else []) ++
+    (if h.externKw then [StorageMod.extern] else [])
+  match h.dupKw, ms with
+  | true, m :: rest => m :: m :: rest
+  | _, ms => ms
 
 /-- entries in source order → root definitions; `cur` = the global-variable declaration being collected (its
     attributes, base type, storage keywords, declarators so far, base key) -/
@@ -243,7 +251,7 @@ def showFrontErr : FrontErr → String
   | .staticSamplerUnexpectedStorageClass n => "err:decl:static-sampler-storage:" ++ n
   | .attributeArgumentCount l => "err:decl:attribute-count:" ++ l
   | .attributeUnknown n => "err:decl:attribute-unknown:" ++ n
-  | .attributeNotConstant => "err:decl:attribute-not-constant:"
+  | .attributeNotConstant w => "err:decl:attribute-not-constant:" ++ w
   | .modifierConflict new _ => "err:decl:modifier-conflict:" ++ new
 
 def showMetaBinding (b : MetaBinding) : String :=
